@@ -727,7 +727,9 @@ pub fn diagnostic_display_input<W: std::fmt::Write>(w: &mut W, input: &Inp) -> R
         Inp::Star => write!(w, r#"*"#)?,
         Inp::Command { cmd, .. } => write!(w, r#"{{{{{{ {cmd} }}}}}}"#)?,
         Inp::Compadd { cmd, .. } => write!(w, r#"{{{{{{ {cmd} }}}}}}compadd"#)?,
-        Inp::Subword { .. } => unreachable!(),
+        // The path leading to an ambiguity may cross a within-word automaton, whose text isn't
+        // available here.
+        Inp::Subword { .. } => write!(w, r#"<subword>"#)?,
     }
     Ok(())
 }
